@@ -4,6 +4,14 @@ import json, os
 HERE = os.path.dirname(os.path.dirname(os.path.abspath(__file__)))
 TRUST = 'TLC 1.8.0 and the Json/IOUtils community modules; the harness (Go) for concretising abstract values and projecting results (its own sha256/JSON rendering); Go toolchain'
 CHECKS = {
+ 'C01': dict(engine='OciRegistry', design='5/C01',
+   text='Reads, range reads and refused pushes of the reference model OciRegistry are checked exhaustively by TLC over small contents (0/1/2 bytes, every range pair, every push path); the same histories plus seeded-random ones (0..3-byte contents with NUL/UTF-8 fragments, a 16 KiB block content, a 140 KiB manifest) run through seven-plus stacks (mem, client/server, +debug, +select, +sub, +unify, two hops) and TLC validates every read event (content the bytes hash to, byte count, reader descriptor, slice) against the model.',
+   note='Corrupted-response clause (third sentence) is decided by the client fault family (see C18 entry) once built; until then it is not claimed here. Bounds as C02; ranges on block contents at block boundaries. ' + TRUST,
+   technique='TLA+ reference model + TLC; recorded executions of every stack validated against it by TLC'),
+ 'C03': dict(engine='OciRegistry', design='5/C03',
+   text='Every history is executed through client->server stacks (one and two hops, with ocidebug, under option sets omit-digest / no-link / page sizes / max page size / no single POST) and each client-side call is validated by TLC as a step of the reference model that ocimem itself is validated against; after every call the state of the in-memory registry behind the last server must equal the model state, and the calls a recording backend saw must be exactly the handler-table image of the client call (operator BackendOK).',
+   note='Well-formed names; uploads driven as the BlobWriter contract says (wrong offsets: C04); HEAD resolves compare the status class; mount size may be 0; a lying descriptor size over HTTP only has to fail. ' + TRUST,
+   technique='TLA+ reference model + handler table in TLA+; traces of real client/server stacks with a recording backend validated by TLC'),
  'C02': dict(engine='OciRegistry', design='5/C02',
    text='TLC exhaustively checks the reference model OciRegistry (all interleavings of pushes, deletes, tags, uploads over small universes, both tag modes) for its invariants; TLC-generated and seeded-random histories are executed on the real ocimem and every recorded call (arguments, projected result, full state snapshot) is validated by TLC as a step of that model. Bounded exhaustive for the design, sampled-but-model-judged for the code.',
    note='Bounds: MC universes of 1-2 repositories, 2-3 blobs, 3-5 manifests x 3 media types, 1-2 tags, 1 upload session; traces over 4 repositories / 21 contents / 4 tags. ' + TRUST,
@@ -15,7 +23,7 @@ m = dict(version=1,
   setup_cmd='./tools/setup.sh',
   hooks=dict(guard='verif', enable='go build -tags verif (the harness is built with the tag by every check)',
              baseline_off_cmd='/verif/tools/baseline.sh /repo', source_commits=[], add_only=True),
-  engines=[dict(name='OciRegistry', path='spec/OciRegistry.tla', serves_properties=['C02'], kind_free_text='TLA+ reference model of the registry Interface; RegTrace.tla validates recorded executions; OciRegistryGen.tla generates histories')],
+  engines=[dict(name='OciRegistry', path='spec/OciRegistry.tla', serves_properties=['C01', 'C02', 'C03'], kind_free_text='TLA+ reference model of the registry Interface; RegTrace.tla validates recorded executions; OciRegistryGen.tla generates histories')],
   checks=[], not_applicable=[],
   notes='All verdicts come from executions of the real code that TLC rejects against a TLA+ specification; see DESIGN.md.')
 for pid in ALL:
